@@ -19,5 +19,17 @@ def concerns(sig, text):
             or ".probe" in sig or (("close" in sig.split("-after-")[0]) and what.startswith("out")))
 
 
+def concerns_close(sig, text):
+    """divergences of the protocol replays that concern closing: at a close / ctx_close step, or a crash / hang anywhere"""
+    return (".close" in sig or ".ctx_close" in sig or "watchdog" in sig or ":exit-" in sig or ":asan" in sig or ":ubsan" in sig
+            or ":panic" in sig)
+
+
 def run(v, tier, rng):
     run_life(v, tier, concerns)
+    # closing a context / the socket with a queued reply and a pending receive, in every class of state of Rep.tla
+    from checks.agg import Only
+    from checks import c04
+    px = Only(v, concerns_close, 1.0)
+    c04.rep_part(px, tier == "thorough", mc=False)
+    v.cov["divergences_outside_this_property"] = v.cov.get("divergences_outside_this_property", 0) + px.other
